@@ -35,7 +35,8 @@ CHECKS = {
              batches=[dict(profile='term', flavour='plain', quick=60000, thorough=3000000), dict(profile='pipe', flavour='plain', quick=20000, thorough=1000000), FOREST_BATCH],
              must_probe=['nprocs_gt_n', 'idle_polls', 'forest_etree_as_intended', 'forest_shapes_distinct']),
  'C05': dict(seed_offset=5, level='exploration', rule=RULE_A, props=['C05'],
-             batches=[dict(profile='mem', flavour='asan', quick=8000, thorough=300000), dict(profile='mem', flavour='plain', quick=40000, thorough=2000000)],
+             batches=[dict(profile='mem', flavour='asan', quick=8000, thorough=300000), dict(profile='mem', flavour='plain', quick=40000, thorough=2000000),
+                      dict(profile='sym', flavour='plain', quick=16000, thorough=800000), dict(profile='sym', flavour='asan', quick=2000, thorough=80000)],
              must_probe=['lusup_allocs_checked', 'dyn_slots', 'abort_storage_exceeded']),
  'C06': dict(seed_offset=6, level='exploration', rule=RULE_A, props=['C06', 'C05'],
              batches=[dict(profile='sing', flavour='plain', quick=50000, thorough=2500000), dict(profile='sing', flavour='asan', quick=5000, thorough=200000)],
